@@ -57,6 +57,15 @@ let () =
     let (w', ev) = SemModel.step !w actor choice in
     w := w'; incr steps; expect ev in
   let poster_of t = nat_of_int (t - 2) in
+  (* the comparison of the deadline with the clock value read earlier is thread-local work of the owner: the model makes it a step
+     of its own (it uses the value LOGGED by the clock step, not the clock), taken when the owner is next heard of *)
+  let flush_decide () =
+    match (!w).owner with
+    | TDecide (_, _) ->
+      do_step Owner CNormal (fun ev -> match ev with
+        | EvDecide e -> cover (if e then "decide-expired" else "decide-retry")
+        | _ -> fail "model is not at the deadline decision")
+    | _ -> () in
   (try
      while true do
        let line = input_line ic in
@@ -68,6 +77,8 @@ let () =
          | _ :: _ :: "fts" :: t :: "none" :: _ -> last_fts := Some (int_of_string t, None)
          | _ :: _ :: "fts" :: t :: s :: n :: _ -> last_fts := Some (int_of_string t, Some (z_of_string s, z_of_string n))
          | _ :: _ :: "ret" :: r :: _ ->
+           flush_decide ();
+           (match (!w).owner with OIdle -> () | _ -> raise (Mismatch "the implementation returned from a timed P, the model's call is not complete"));
            let m = int_of_z (SemReplay.last_code !w) in
            if m <> int_of_string r then raise (Mismatch (Printf.sprintf "timed P returned %s in the implementation, %d in the model" r m))
          | _ -> ()
@@ -77,6 +88,7 @@ let () =
          | [_; _step; tid; kind; _order; where; _obj; a; b; ok; now] ->
            let t = int_of_string tid and a = int_of_string a and b = int_of_string b and ok = (ok = "1") in
            sync_clock (int_of_string now);
+           if t = 1 then flush_decide ();
            let file, ln = (match String.split_on_char ':' where with [f; l] -> f, (try int_of_string l with _ -> 0) | _ -> where, 0) in
            if file = "nsync_semaphore_futex.c" then begin
              let (fn, ord) = try Hashtbl.find sites (file, ln) with Not_found -> fail "trace site not in Gen/Sites" in
@@ -129,7 +141,13 @@ let () =
                | _ -> fail "implementation issues FUTEX_WAKE, model elsewhere")
            end else if kind = "clock" && t = 1 then begin
              cover "clock";
-             do_step Owner CNormal (fun ev -> match ev with EvClock | EvRet _ -> () | _ -> fail "implementation reads the clock, model elsewhere")
+             do_step Owner CNormal (fun ev -> match ev with
+               | EvClock rd ->
+                 (* the value the implementation read (trace: a = tv_sec as uint32, b = tv_nsec) against the value the model logs *)
+                 if (int_of_z rd.t_sec) land 0xffffffff <> a land 0xffffffff || int_of_z rd.t_nsec <> b then
+                   fail (Printf.sprintf "clock value read differs: model %d.%09d implementation %d.%09d" (int_of_z rd.t_sec) (int_of_z rd.t_nsec) a b);
+                 if int_of_z (SemModel.tm_ns rd) <> int_of_string now then fail "clock value read differs from the virtual clock"
+               | _ -> fail "implementation reads the clock, model elsewhere")
            end else incr skipped
          | _ -> ()
        end
